@@ -616,7 +616,8 @@ static bool srv_validater (StunAgent *agent, StunMessage *message, uint8_t *user
  *  n 438 stale nonce | r 300 try-alternate (127.0.0.99:3478) | g garbage | x success carrying another transaction id
  *  m success WITHOUT message integrity (turn) | 6 success with an IPv6 mapped address
  *  R (turn) success whose relayed address shares the IP of the mapped address (TURN server on the NAT gateway)
- *  a (turn) authenticate: valid long-term credentials -> signed success, otherwise 401 with realm/nonce */
+ *  a (turn) authenticate: valid long-term credentials -> signed success, otherwise 401 with realm/nonce
+ *  V (turn) as `a`, but the success carries an IPv4 mapped and an IPv6 relayed address (dual-stack relay, RFC 6156: 2001:db8::<last octet of the server, hex>) */
 static void srv_reply (Server *s, Dgram *g, char b)
 {
   StunAgent sa; StunMessage req, resp; uint8_t buf[1500]; size_t len = 0;
@@ -642,6 +643,7 @@ static void srv_reply (Server *s, Dgram *g, char b)
   if (stun_message_get_class (&req) != STUN_REQUEST) return;  /* indications ignored */
   s->nreq++;
   if (b == 'a') b = authed ? 's' : 'u';
+  if (b == 'V') b = authed ? 'v' : 'u';
   printf ("ev t=%llu server %s:%u req method=%d behaviour=%c authed=%d txid=", (unsigned long long) now_ms (),
       inet_ntoa (s->addr.sin_addr), ntohs (s->addr.sin_port), stun_message_get_method (&req), b, authed);
   { StunTransactionId rid; stun_message_id (&req, rid); print_hex (rid, 16); }
@@ -649,7 +651,7 @@ static void srv_reply (Server *s, Dgram *g, char b)
   if (b == 'd') return;
   if (b == 'g') { uint8_t junk[40]; int i; for (i = 0; i < 40; i++) junk[i] = rng_next (); enqueue (&s->addr, &g->from, junk, 40, due); return; }
   if (b == 'l') due += 700000;
-  if (b == 's' || b == 'S' || b == 'l' || b == 'x' || b == 'm' || b == '6' || b == 'R') {
+  if (b == 's' || b == 'S' || b == 'l' || b == 'x' || b == 'm' || b == '6' || b == 'R' || b == 'v') {
     if (b == 'm') { req.key = NULL; req.key_len = 0; req.long_term_valid = FALSE; }
     if (!stun_agent_init_response (&sa, &resp, buf, sizeof buf, &req)) return;
     if (b == '6') {
@@ -665,6 +667,12 @@ static void srv_reply (Server *s, Dgram *g, char b)
     if (s->kind == 1 && stun_message_get_method (&req) == STUN_ALLOCATE) {
       struct sockaddr_in rel = s->addr; rel.sin_port = htons (49152 + (s->nreq % 1000));
       if (b == 'R') rel.sin_addr = mapped.sin_addr;     /* relayed address on the same IP as the mapped (NAT gateway) address */
+      if (b == 'v') {
+        struct sockaddr_in6 r6; memset (&r6, 0, sizeof r6); r6.sin6_family = AF_INET6; r6.sin6_port = rel.sin_port;
+        { char ip6[48]; snprintf (ip6, sizeof ip6, "2001:db8::%x", (unsigned) (ntohl (s->addr.sin_addr.s_addr) & 0xff));   /* one per server */
+          inet_pton (AF_INET6, ip6, &r6.sin6_addr); }
+        stun_message_append_xor_addr (&resp, STUN_ATTRIBUTE_RELAY_ADDRESS, (struct sockaddr_storage *) &r6, sizeof r6);
+      } else
       stun_message_append_xor_addr (&resp, STUN_ATTRIBUTE_RELAY_ADDRESS, (struct sockaddr_storage *) &rel, sizeof rel);
       stun_message_append32 (&resp, STUN_ATTRIBUTE_LIFETIME, 600);
     }
